@@ -106,7 +106,7 @@ pub fn check_alignment(times_in: &[(f64, f64)], d: &[usize], params: &[MeanVari]
 
 pub fn run(tier: Tier) -> i32 {
     let rep = Report::new("C09", tier, "model_checking");
-    rep.set_rule("SCOPE: full product of per-label annotations {none, start only, end only, both} with times from {0,.4,.5,1,2.5,7,30,100.49,2999} frames over utterances of 1..N labels x state counts (and, for duration models with half-integer means, times {0,2.5,4,5,10} over 1..2 labels), through the real Labels::new + DurationEstimator::create_with_alignment; end-to-end string form on V0 and a generated voice (6 rate/period cells, speeds 1, 0.5 and 3 where every label has a known end); distinct = (annotation vector, nstate); non-trivial = at least one label with a known end");
+    rep.set_rule("SCOPE: full product of per-label annotations {none, start only, end only, both} (on every seventh case also with the unknown entries spelled with other negative numbers than -1, which must give the same stored times) with times from {0,.4,.5,1,2.5,7,30,100.49,2999} frames over utterances of 1..N labels x state counts (and, for duration models with half-integer means, times {0,2.5,4,5,10} over 1..2 labels), through the real Labels::new + DurationEstimator::create_with_alignment; end-to-end string form on V0 and a generated voice (6 rate/period cells, speeds 1, 0.5 and 3 where every label has a known end); distinct = (annotation vector, nstate); non-trivial = at least one label with a known end");
     rep.assume("times are on the 9-point frame lattice; utterances have at most 3 (quick) / 4 (thorough) labels in the exhaustive part");
     let ann1 = annotations();
     let ann2 = annotations_on(&TL2);
@@ -138,6 +138,36 @@ pub fn run(tier: Tier) -> i32 {
                     est.create_with_alignment(labels.times())
                 });
                 rep.eval(1);
+                // "no time given" is any negative number for `Labels::new` (the text form hands it -1 x rate): on every seventh
+                // case the unknown entries are spelled with other negative numbers, which must give the very same alignment
+                if code % 7 == 3 && times.iter().any(|t| t.0 < 0.0 || t.1 < 0.0) {
+                    let neg = [-2.0, -0.5, -1e-5, -1e9, f64::MIN, f64::NEG_INFINITY, -5e-324, -0.99, -1.0000000000000002];
+                    let mut k = code / 7;
+                    let other: Vec<(f64, f64)> = times
+                        .iter()
+                        .map(|t| {
+                            let mut pick = |x: f64| {
+                                if x < 0.0 {
+                                    k += 1;
+                                    neg[k % neg.len()]
+                                } else {
+                                    x
+                                }
+                            };
+                            (pick(t.0), pick(t.1))
+                        })
+                        .collect();
+                    rep.cmp(1);
+                    let a = catch(|| Labels::new(vec![lab.clone(); nl], Some(times.clone())).map(|l| l.times().to_vec()).ok());
+                    let b = catch(|| Labels::new(vec![lab.clone(); nl], Some(other.clone())).map(|l| l.times().to_vec()).ok());
+                    let same = match (&a, &b) {
+                        (Ok(Some(x)), Ok(Some(y))) => x.len() == y.len() && x.iter().zip(y).all(|(p, q)| p.0.to_bits() == q.0.to_bits() && p.1.to_bits() == q.1.to_bits()),
+                        _ => false,
+                    };
+                    if !same {
+                        rep.violation("unknown-encoding", format!("Labels::new: unknown times spelled {:?} give {:?}, spelled with -1 ({:?}) they give {:?}", other, b, times, a), json!({"times_frames": other, "nstate": ns, "means": means}));
+                    }
+                }
                 if times.iter().any(|t| t.1 >= 0.0) || times.iter().skip(1).any(|t| t.0 >= 0.0) {
                     nontriv.fetch_add(1, Ordering::Relaxed);
                 }
